@@ -67,6 +67,7 @@ var Schemas = map[string]string{
           case i { leaf i1 { type string; } }
           case j { leaf j1 { type string; } leaf j2 { type string; } }
         }
+        leaf q2 { type string; }
       }
     }
   }
